@@ -262,34 +262,34 @@ type incObs struct {
 }
 
 type ledgers struct {
-	run       *simRun
-	leaderOf  map[uint64]uint64 // term -> node
-	entries   map[entKey]*entRec
-	committed map[uint64]uint64 // index -> term
-	commitBy  map[uint64]string
-	commitIn   map[uint64]uint64 // index -> lowest term of a node at the moment it was seen to have committed the index
-	commitHash map[uint64]uint64 // index -> payload hash of the entry as held by the node that committed it
-	upto      uint64   // committed prefix known contiguously
-	G         []uint64 // committed update commands in index order (up to upto)
-	Gidx      []uint64
-	cmdAt     map[uint64][]entKey // command id -> ledger entries carrying it
-	everVoter map[uint64]bool
-	okUpdates map[uint64]*opRec
-	elections int
-	candidates map[uint64]int
-	appliedBy  map[uint64]int
+	run           *simRun
+	leaderOf      map[uint64]uint64 // term -> node
+	entries       map[entKey]*entRec
+	committed     map[uint64]uint64 // index -> term
+	commitBy      map[uint64]string
+	commitIn      map[uint64]uint64 // index -> lowest term of a node at the moment it was seen to have committed the index
+	commitHash    map[uint64]uint64 // index -> payload hash of the entry as held by the node that committed it
+	upto          uint64            // committed prefix known contiguously
+	G             []uint64          // committed update commands in index order (up to upto)
+	Gidx          []uint64
+	cmdAt         map[uint64][]entKey // command id -> ledger entries carrying it
+	everVoter     map[uint64]bool
+	okUpdates     map[uint64]*opRec
+	elections     int
+	candidates    map[uint64]int
+	appliedBy     map[uint64]int
 	leaderChanges int
 	lastLeader    uint64
 
-	cfgIdx []uint64 // indices of committed configuration entries, ascending
-	cfgAt  map[uint64]*Config
+	cfgIdx    []uint64 // indices of committed configuration entries, ascending
+	cfgAt     map[uint64]*Config
 	snapsSeen map[string]bool
 
 	x ledgers2
 
-	probeOp     *opRec
-	probeDone   bool
-	settled     bool
+	probeOp   *opRec
+	probeDone bool
+	settled   bool
 }
 
 func (l *ledgers) init(run *simRun) {
@@ -446,8 +446,8 @@ func listDir(dir string) string {
 }
 
 func (l *ledgers) onCrash(ni *nodeInc, image string) {}
-func (l *ledgers) onWipe(n *simNode)                  {}
-func (l *ledgers) onHeal()                            {}
+func (l *ledgers) onWipe(n *simNode)                 {}
+func (l *ledgers) onHeal()                           {}
 
 // ---- C01 ------------------------------------------------------------------------------------
 
@@ -1409,6 +1409,9 @@ func (run *simRun) probe(name string, args []interface{}) {
 					ni.acked, ni.ackedTerm = acked, t
 					if acked > ni.ackedMax {
 						ni.ackedMax = acked
+					}
+					if acked > ni.node.ackedMaxEver {
+						ni.node.ackedMaxEver = acked // survives the incarnation: the leader cannot know of a later disk loss
 					}
 				}
 			}
